@@ -70,7 +70,7 @@ theorem C44_compare_after_set (s s' : State) (uid : Nat) (p q : String) (hs : s.
       subst h
       simp only [Bool.or_eq_true, decide_eq_true_eq, not_or, Nat.not_lt, Bool.not_eq_true',
         Bool.not_eq_false] at hlen husr
-      rw [C44_compare_ok _ uid q hs]
+      rw [C44_compare_ok _ uid q rfl]
       simp only [get_put_self, Option.some.injEq]
       constructor
       · rintro ⟨_, _, e, _⟩; exact e.symm
@@ -123,7 +123,7 @@ theorem C44_authenticated_iff (s : State) (hdr ck : Option String) (uid : Nat) (
         · rename_i hact
           simp only [Ans.http.injEq, true_and, Option.some.injEq] at h
           obtain ⟨_, ha, hu'⟩ := h
-          refine ⟨Or.inl ⟨t, e, rfl, rfl, ha, hu'⟩, ?_⟩
+          refine ⟨Or.inl ⟨t, e, rfl, hf, ha, hu'⟩, ?_⟩
           simp only [ne_eq, Bool.and_eq_true, decide_eq_true_eq, not_and, Decidable.not_not] at hact
           rw [← hu']; exact hact (by rw [hu']; exact hu)
     | none =>
